@@ -425,6 +425,7 @@ var Mutants = map[string][]Mutant{
 		{"vertical fonts written as horizontal", "renderers/pdf/writer.go", `w\.writeFonts\(w\.fontsV, true\)`, `w.writeFonts(w.fontsV, false)`, "E5.fontmaps"},
 	},
 	"C19": {
+		{"a sign does not start a new number", "svg.go", `(?s)\t\tcase \(ch == '-' \|\| ch == '\+'\) && 0 < i && \('0' <= v\[i-1\] && v\[i-1\] <= '9' \|\| v\[i-1\] == '\.'\):\n\t\t\tsb\.WriteByte\(','\)\n\t\t\tsb\.WriteByte\(ch\)\n`, "", "E11.number-list-separators"},
 		{"style element read whatever closed its start tag", "svg.go", `if tt != xml\.StartTagCloseVoidToken \{ // <style/> has no content and no end tag`, "if true {", "E11.svg-style-element"},
 		{"imported dashes left in user units", "svg.go", `svg\.ctx\.Style\.DashOffset, svg\.ctx\.Style\.Dashes = ScaleDash\(1\.0/w, offset, dashes\)`, "svg.ctx.Style.DashOffset, svg.ctx.Style.Dashes = ScaleDash(1.0, offset, dashes)", "E11.svg-dash-units"},
 		{"dasharray through SetDashes resets the dash offset", "svg.go", `svg\.ctx\.Style\.Dashes = svg\.parsePoints\(val\)`, "svg.ctx.SetDashes(0.0, svg.parsePoints(val)...)", "E11.svg-attribute-independence"},
@@ -453,7 +454,7 @@ var Mutants = map[string][]Mutant{
 		{"matrix() transform read row by row", "svg.go", `m = m\.Mul\(Matrix\{\{d\[0\], d\[2\], d\[4\]\}, \{d\[1\], d\[3\], d\[5\]\}\}\)`, "m = m.Mul(Matrix{{d[0], d[1], d[4]}, {d[2], d[3], d[5]}})", "E11.svg-transform"},
 		{"stroke-dasharray refills the inherited slice", "svg.go", `\t\t\tsvg\.ctx\.Style\.Dashes = svg\.parsePoints\(val\)\n`, "\t\t\tsvg.ctx.Style.Dashes = append(svg.ctx.Style.Dashes[:0], svg.parsePoints(val)...)\n", "E11.state-slice-reuse"},
 		{"height decided by the width attribute", "svg.go", `if attrHeight != "" && !strings\.HasSuffix\(attrHeight, "%"\) \{`, "if attrHeight != \"\" && !strings.HasSuffix(attrWidth, \"%\") {", "E11.viewbox-mirror"},
-		{"parsePoints fills a package-level scratch buffer", "svg.go", `func \(svg \*svgParser\) parsePoints\(v string\) \[\]float64 \{\n((?:.*\n){4})\tvals := \[\]float64\{\}\n`, "var scratchNumbers []float64\n\nfunc (svg *svgParser) parsePoints(v string) []float64 {\n$1\tvals := scratchNumbers[:0]\n", "E11.returned-scratch"},
+		{"parsePoints fills a package-level scratch buffer", "svg.go", `func \(svg \*svgParser\) parsePoints\(v string\) \[\]float64 \{\n((?:.*\n)+?)\tvals := \[\]float64\{\}\n`, "var scratchNumbers []float64\n\nfunc (svg *svgParser) parsePoints(v string) []float64 {\n$1\tvals := scratchNumbers[:0]\n", "E11.returned-scratch"},
 		{"miter limit written into the asserted copy only", "svg.go", `\t\t\tmiter\.Limit = svg\.state\.strokeMiterLimit\n\t\t\tsvg\.ctx\.SetStrokeJoiner\(miter\)\n`, "\t\t\tmiter.Limit = svg.state.strokeMiterLimit\n", "E11.copy-store"},
 		{"translate(tx) moves along both axes", "svg.go", `m = m\.Translate\(d\[0\], 0\.0\)`, "m = m.Translate(d[0], d[0])", "E11.svg-transform"},
 		{"matrix() transposed", "svg.go", `Matrix\{\{d\[0\], d\[2\], d\[4\]\}, \{d\[1\], d\[3\], d\[5\]\}\}`, "Matrix{{d[0], d[1], d[4]}, {d[2], d[3], d[5]}}", "E11.svg-transform"},
